@@ -89,7 +89,7 @@ fn plan(seeds: &[u16]) -> Plan {
         prefix.push((i, format!("NICK n{}", i)));
         prefix.push((i, format!("USER u{} 0 * :Real n{}", i, i)));
     }
-    let kind_i = s.pick(10);
+    let kind_i = s.pick(12);
     let mut per_conn: Vec<(usize, Vec<String>)> = vec![];
     let mut contested_nick = None;
     let mut new_channel = None;
@@ -189,6 +189,21 @@ fn plan(seeds: &[u16]) -> Plan {
             per_conn.push((1, vec!["JOIN #e".into()]));
             per_conn.push((2, vec!["JOIN #e".into()]));
             "last-part-vs-join"
+        }
+        9 | 10 => {
+            // a rank / membership that a command was checked against disappears concurrently
+            for c in 0..3 {
+                prefix.push((c, "JOIN #k".into()));
+            }
+            prefix.push((0, "MODE #k +t".into()));
+            prefix.push((0, "MODE #k +h n1".into()));
+            let a = ["KICK #k n1 :out", "MODE #k -h n1", "KICK #k n1,n2 :both"][s.pick(3)];
+            per_conn.push((0, vec![a.to_string()]));
+            per_conn.push((1, vec!["TOPIC #k :changed by n1".into()]));
+            if s.chance(50) {
+                per_conn.push((2, vec!["TOPIC #k".into(), "NAMES #k".into()]));
+            }
+            "topic-vs-kick"
         }
         _ => {
             prefix.push((0, "JOIN #v".into()));
@@ -743,7 +758,7 @@ pub fn run(ctx: &RunCtx) -> Vec<PartOutcome> {
     vec![
         explore_with(ctx, "bursts", ctx.tier.pick(2_000, 40_000), 24, burst_strat, check_burst),
         explore_with(ctx, "pipelines", ctx.tier.pick(1_500, 25_000), 300, pipe_strat, check_pipeline),
-        explore_with(ctx, "bursts_parallel", ctx.tier.pick(400, 8_000), 12, burst_strat, check_burst_mt),
+        explore_with(ctx, "bursts_parallel", ctx.tier.pick(1_000, 20_000), 12, burst_strat, check_burst_mt),
     ]
 }
 
